@@ -3,3 +3,4 @@ NEXT GenNext
 CONSTANTS
   Chunkings = "all"
   Lens = {0, 1, 64, 200}
+  LifeLen = 4
